@@ -37,6 +37,15 @@ Theorem C01_reference_total : forall structs p, check_prog structs p = TOk tt ->
 Proof. exact type_safety. Qed.
 Print Assumptions C01_reference_total.
 
+(* non-vacuity for calls with by-reference arguments: the accepted program
+     f0(s: &'S0, k: i32) { s.F0 = k; }   main { let v = {1, 2} as S0; f0(&'v, 3); print v.F0 }
+   prints the value written through the reference *)
+Import ListNotations.
+Theorem C01_reference_by_ref_example :
+  check_prog [[I32; U8]] byref_sample = TOk tt /\ run [[I32; U8]] byref_sample 5 = Done [[OInt 3]].
+Proof. exact (conj byref_sample_accepted byref_sample_runs). Qed.
+Print Assumptions C01_reference_by_ref_example.
+
 (* ---- instruction selection of the native back end, over the table regenerated from the emitter on every run ---- *)
 From FV Require Import Models.Qbe Models.ISel Proofs.ISelSound Proofs.ISelThm gen.Gen_QbeSel.
 Import ListNotations.
